@@ -168,6 +168,15 @@ CHECKS = {
         "Deletions are communicated by closing the document; plain .f90 files do not share macro names; the battery samples up to 30 identifiers per file.",
         "DESIGN.md §3 C10",
     ),
+    "C15": (
+        "exploration",
+        "differential testing across harness-owned schedules/configurations: worker count (real Pool), hash seed (fresh process per seed), permuted os.listdir/os.walk order, open-one-at-a-time order",
+        "For generated multi-directory workspaces plus a cross-linked bundle, the normalised battery of every drawn configuration (nthreads 1..16, "
+        "PYTHONHASHSEED, listing-order permutation - exhaustive for a 4-file directory in the thorough tier -, or starting empty and opening the files "
+        "in a drawn order) must equal that of the reference configuration.",
+        "The interleaving of Pool workers is sampled, not controlled; unit names are unique.",
+        "DESIGN.md §3 C15",
+    ),
 }
 
 NOT_YET = "check not built yet in this session (work in progress; see DESIGN.md §3 for the planned generator and oracle)"
